@@ -25,7 +25,7 @@ import rustlex as rl
 
 VERIF = ve.VERIF
 OUT = os.path.join(VERIF, 'out')
-EVID = os.path.join(VERIF, 'evidence')
+EVID = os.environ.get('VERIF_EVIDENCE_DIR') or os.path.join(VERIF, 'evidence')
 KNOWN = os.path.join(VERIF, 'KNOWN_FINDINGS.json')
 LOCK = os.path.join(VERIF, 'contracts', 'OBLIGATIONS.lock.json')
 VERUS_ARGS = ['--multiple-errors', '50', '--output-json', '--time', '--error-format=json']
@@ -379,6 +379,10 @@ def main():
     units = [p for p in unit_files() if (set(deps) & set(unit_meta(p)['serves'])) and (tier == 'thorough' or unit_meta(p).get('tier', 'quick') == 'quick')]
     if '--replay' in args:
         rp = json.load(open(args[args.index('--replay') + 1]))
+        if rp.get('kani'):
+            # replay of a Kani counterexample: the recorded values are fed to the same harness body compiled by plain rustc
+            import kani_lane
+            sys.exit(kani_lane.replay_file(rp))
         units = [p for p in units if unit_meta(p)['unit'] == rp['unit']]
     os.makedirs(OUT, exist_ok=True)
     os.makedirs(EVID, exist_ok=True)
@@ -453,8 +457,8 @@ def main():
         witness = f.get('witness')
         json.dump({'property': prop, 'obligation': f['id'], 'unit': r['unit'], 'kind': f['kind'], 'message': f['message'],
                    'repo_location': f.get('where'), 'generated_file': r.get('generated'), 'verifier_output': f.get('rendered'),
-                   'witness': witness,
-                   'note': None if witness else 'the verifier gives no model for this obligation (Verus); no-failing-input-found'},
+                   'witness': witness, 'kani': f.get('kani'),
+                   'note': None if witness else 'the verifier gives no model for this obligation; no-failing-input-found'},
                   open(rp, 'w'), indent=1)
         print('failed obligation %s' % f['id'])
         print('  at %s: %s' % (f.get('where'), f['message']))
@@ -486,7 +490,8 @@ def main():
             'known_findings_reported': [k['what'] for _, k in knownhits],
             'not_decided': spec.get('not_decided', []),
             'builds_on': spec.get('depends', []),
-            'bounded': spec.get('bounded', []),
+            'bounded': spec.get('bounded', []) + ['%s: %s -- bound: %s -- %s (Kani, never counted as proved)' % (h['id'], h['claim'], h['bound'], h['status'])
+                                                   for e in extra for h in e.get('harnesses', []) if h['kind'] == 'bounded'],
             'undecided': [{'unit': r['unit'], 'reason': r['reason']} for r in undecided],
         },
         'assumptions': spec.get('assumptions', []),
